@@ -24,6 +24,10 @@ REWRITES = {
     # `opt.unwrap_or_else(|| v.len())` -> `opt.unwrap_or(v.len())`: closure results are opaque to Verus; the argument is a
     # pure length read (no side effect, cannot fail), so eager evaluation is equivalent
     'unwrap_or_else_len': (r'\.unwrap_or_else\(\|\|\s*([A-Za-z_][A-Za-z_0-9]*)\.len\(\)\)', r'.unwrap_or(\1.len())'),
+    # `match S { [a, b] => E1, [a, b, c] => E2, _ => E3 }` (Verus has no slice patterns) ->
+    # `match S { __s => if __s.len() == 2 { let a = &__s[0]; let b = &__s[1]; E1 } else if __s.len() == 3 { ... } else { E3 } }`
+    # the standard desugaring of fixed-length slice patterns of plain bindings; handled by slice_match_rewrite below
+    'slice_match': None,
 }
 
 # run-time helpers emitted once into lib.rs (outside verus!, ordinary Rust, #[inline(always)])
@@ -212,6 +216,74 @@ def annotate_file(text, unit, canary=False, disabled_rewrites=()):
     return new, infos
 
 
+def slice_match_rewrite(src, key, ob, cb, add_edit, info):
+    """desugar every `match` in the body whose arms are fixed-length slice patterns of plain identifiers (plus `_`)"""
+    text = src.text
+    for mt in src.find_code(r'\bmatch\b', ob, cb):
+        mob = src.next_body_open(mt.end(), cb)
+        if mob < 0:
+            continue
+        mcb = src.match_close(mob)
+        # split arms at depth 0
+        arms = []
+        i = mob + 1
+        while True:
+            while i < mcb and (text[i].isspace() or not src.mask[i]):
+                i += 1
+            if i >= mcb:
+                break
+            ar = text.find('=>', i, mcb)
+            while ar >= 0 and not src.mask[ar]:
+                ar = text.find('=>', ar + 2, mcb)
+            if ar < 0:
+                raise AnchorLost('%s: match arm without =>' % key)
+            pat = text[i:ar].strip()
+            j = ar + 2
+            while text[j].isspace():
+                j += 1
+            if text[j] == '{':
+                e = src.match_close(j)
+                body = text[j:e + 1]
+                j = e + 1
+                while j < mcb and text[j].isspace():
+                    j += 1
+                if text[j] == ',':
+                    j += 1
+            else:
+                depth = 0
+                k = j
+                while k < mcb:
+                    if src.mask[k]:
+                        if text[k] in '([{':
+                            depth += 1
+                        elif text[k] in ')]}':
+                            depth -= 1
+                        elif text[k] == ',' and depth == 0:
+                            break
+                    k += 1
+                body = '{ ' + text[j:k].strip() + ' }'
+                j = k + 1
+            arms.append((pat, body))
+            i = j
+        if not any(p.startswith('[') for p, b in arms):
+            continue
+        conds = []
+        for n, (pat, body) in enumerate(arms):
+            m2 = re.fullmatch(r'\[\s*([A-Za-z_][A-Za-z_0-9]*(?:\s*,\s*[A-Za-z_][A-Za-z_0-9]*)*)\s*,?\s*\]', pat)
+            if m2:
+                names = [x.strip() for x in m2.group(1).split(',')]
+                lets = ' '.join('let %s = &__s[%d];' % (nm, ix) for ix, nm in enumerate(names))
+                conds.append('if __s.len() == %d { %s %s }' % (len(names), lets, body))
+            elif pat == '_' and n == len(arms) - 1:
+                conds.append(body)
+            else:
+                raise AnchorLost('%s: slice-pattern match with an arm the desugaring does not cover: `%s`' % (key, pat))
+        if not (arms[-1][0] == '_'):
+            raise AnchorLost('%s: slice-pattern match without a final `_` arm' % key)
+        add_edit(mob + 1, mcb, ' __s => ' + ' else '.join(conds) + ' ')
+        info.rewrites_applied.append('slice_match: %d arms at +%d' % (len(arms), mt.start() - ob))
+
+
 def process_fn(src, unit, key, spec, s, hp, ob, cb, add_edit, canary, disabled_rewrites):
     text = src.text
     info = FnInfo(unit['name'], key, spec)
@@ -353,7 +425,7 @@ def process_fn(src, unit, key, spec, s, hp, ob, cb, add_edit, canary, disabled_r
             add_edit(p + len(anchor), p + len(anchor), ' ' + ins['text'], prio=3)
 
     # executable rewrites inside the body only
-    rw = [r for r in unit.get('rewrites', ['drop_trace', 'f64_nan', 'f64_max', 'unwrap_or_else_len']) if r not in disabled_rewrites]
+    rw = [r for r in unit.get('rewrites', ['drop_trace', 'f64_nan', 'f64_max', 'unwrap_or_else_len', 'slice_match']) if r not in disabled_rewrites]
     new_body = body
     if 'drop_trace' in rw:
         for mt in src.find_code(r'\btrace!\s*\(', ob, cb):
@@ -377,6 +449,8 @@ def process_fn(src, unit, key, spec, s, hp, ob, cb, add_edit, canary, disabled_r
                 add_edit(mt.start(), mt.end(), mt.expand(rep))
                 info.rewrites_applied.append('%s at +%d' % (name, mt.start() - ob))
             new_body = re.sub(rx, rep, new_body)
+    if 'slice_match' in rw:
+        slice_match_rewrite(src, key, ob, cb, add_edit, info)
     for (rx, rep) in spec.get('rewrites', []):
         raise AnchorLost('per-function rewrites are not allowed')
     info.body_sha_verus = sha(new_body)
